@@ -6,7 +6,9 @@ import (
 	"bytes"
 	"encoding/json"
 	"fmt"
+	"github.com/superfly/macaroon/auth"
 	"math"
+	"math/big"
 	"runtime"
 	"runtime/debug"
 	"strings"
@@ -329,10 +331,30 @@ func genJSONTypes(c *ctx, st *cs.Stream) {
 	}
 }
 
+// f8Oracle: a negative GoogleUserID has no wire form (it would come back as its absolute value): encoding must fail,
+// alone, in a set, and on a token (finding F8)
+func f8Oracle() string {
+	for _, v := range []int64{-1, -5, -1 << 40} {
+		g := (*auth.GoogleUserID)(big.NewInt(v))
+		if _, err := macaroon.NewCaveatSet(g).MarshalMsgpack(); err == nil {
+			return fmt.Sprintf("GoogleUserID(%d) encodes without error (decodes as %d)", v, -v)
+		}
+		m, _ := macaroon.New([]byte("k"), "https://loc.test", macaroon.NewSigningKey())
+		m.UnsafeCaveats.Caveats = append(m.UnsafeCaveats.Caveats, g)
+		if _, err := macaroon.VerifEncode(m); err == nil {
+			return fmt.Sprintf("a token carrying GoogleUserID(%d) encodes without error", v)
+		}
+	}
+	return ""
+}
+
 func genC11(c *ctx) {
 	unregAnyType = false
 	st := c.set.Stream("codec", "Corr.RunM", "run", 120)
 	genJSONTypes(c, st)
+	if f := f8Oracle(); f != "" {
+		st.Add(&cs.Case{Coq: "(KSkip [] false 0%N)", Desc: map[string]any{"op": "encode negative GoogleUserID"}, Class: "corpus/F8", Nontrivial: true, OracleFail: f})
+	}
 	r := c.r
 	n := 700
 	if c.thorough {
@@ -578,6 +600,8 @@ func exerciseSet(set *macaroon.CaveatSet) {
 func exerciseToken(b []byte) {
 	mm, err := macaroon.Decode(b)
 	if err != nil {
+		macaroon.TicketsForThirdParty(b, "https://tp.test")
+		macaroon.ThirdPartyTicket(b, "https://tp.test")
 		return
 	}
 	exerciseSet(&mm.UnsafeCaveats)
@@ -607,6 +631,8 @@ func exerciseToken(b []byte) {
 		macaroon.DischargeTicket(macaroon.NewEncryptionKey(), c3.Location, c3.Ticket)
 	}
 	macaroon.DischargeTicket(macaroon.NewEncryptionKey(), mm.Location, mm.Nonce.KID)
+	macaroon.TicketsForThirdParty(b, "https://tp.test")
+	macaroon.ThirdPartyTicket(b, "https://tp.test")
 	mm.Encode()
 	mm.String()
 	mm.Clone()
@@ -813,6 +839,42 @@ func genC12(c *ctx) {
 		}
 		st.Add(&cs.Case{Coq: coqw.App("KSkip", coqw.Packed(input), coqw.Bool(err == nil), coqw.N(uint64(consumed))),
 			Desc: map[string]any{"kind": kind, "hex": fmt.Sprintf("%x", input[:imin(len(input), hexLen)]), "len": len(input), "alloc": res.alloc, "decode_alloc": dres.alloc}, Class: "malformed/" + kind, Nontrivial: true, OracleFail: fail})
+	}
+	// inputs that are malformed BY CONSTRUCTION must be refused (an error swallowed in a decoder turns them into acceptances):
+	// every registered type with the body `true`; odd-length and truncated caveat arrays; JSON with a mistyped body
+	mustReject := func(what string, accepted bool) {
+		if accepted {
+			st.Add(&cs.Case{Coq: "(KSkip [] false 0%N)", Desc: map[string]any{"kind": "must-reject", "what": what}, Class: "malformed/must-reject", Nontrivial: true,
+				OracleFail: "malformed input accepted without error: " + what})
+		}
+	}
+	for _, ty := range []byte{0, 2, 3, 4, 5, 6, 7, 8, 9, 10, 11, 12, 13, 14, 15, 16, 19, 20, 21, 23, 24, 25, 26, 27, 28, 29} {
+		for _, body := range [][]byte{{0xc3}, {0xca, 0, 0, 0, 0}} {
+			in := append([]byte{0x92, ty}, body...)
+			if ty == 12 || ty == 19 || ty == 25 {
+				in = append([]byte{0x92, ty}, 0x91, 0x01) // bytes / string typed: an array is the wrong shape
+			}
+			_, err := macaroon.DecodeCaveats(in)
+			mustReject(fmt.Sprintf("caveat set %x (registered type %d with a body of the wrong shape)", in, ty), err == nil)
+			tokIn := append(append([]byte{0x94, 0x93, 0xc4, 0x01, 'k', 0xc4, 0x10}, make([]byte, 16)...), 0xc2, 0xa1, 'l')
+			tokIn = append(append(tokIn, in...), append([]byte{0xc4, 0x20}, make([]byte, 32)...)...)
+			_, terr := macaroon.Decode(tokIn)
+			mustReject(fmt.Sprintf("token whose caveat set is %x", in), terr == nil)
+		}
+	}
+	// the recorded crashers that are malformed must come back as ERRORS (not merely not crash): F3, F4; a token without nonce fields
+	emptyNonceTok := append([]byte{0x94, 0x90, 0xa1, 'l', 0x90, 0xc4, 0x20}, make([]byte, 32)...)
+	if _, err := macaroon.Decode(emptyNonceTok); true {
+		mustReject("token with an empty nonce array", err == nil)
+	}
+	for _, in := range [][]byte{{0x92, 0xcc, 0xc8, 0x81, 0x91, 0x01, 0x01}, {0xdd, 0x0f, 0xff, 0xff, 0xfe}, {0x91, 0x00}, {0x93, 0x00, 0x92, 0x01, 0x01, 0x04}, {0x92, 0x00}, {0x94, 0x00, 0x92, 0x01, 0x01}, {0x92}, {0xdc, 0x00, 0x03, 0x00, 0x92, 0x01, 0x01, 0x00}} {
+		_, err := macaroon.DecodeCaveats(in)
+		mustReject(fmt.Sprintf("caveat array %x (odd length / truncated)", in), err == nil)
+	}
+	for _, js := range []string{`[{"type":"Organization","body":"x"}]`, `[{"type":"Organization","body":{"id":"one"}}]`, `[{"type":"ValidityWindow","body":{"not_before":"x"}}]`, `[{"type":"Organization","body":{"id":1}`,
+		`{"type":"Organization"}`, `[{"type":"Apps","body":{"apps":{"x":"r"}}}]`, `[{"type":"Action","body":7}]`, `[{"type":"ConfineUser","body":{"id":-1}}]`, `[{"type":"GoogleUserID","body":"x"}]`, `[{"type":"IfPresent","body":{"ifs":[{"type":"Organization","body":"x"}],"else":"r"}}]`} {
+		set := macaroon.NewCaveatSet()
+		mustReject("JSON caveat set "+js, json.Unmarshal([]byte(js), set) == nil)
 	}
 	// JSON documents and header strings
 	nj := 400
